@@ -1,8 +1,8 @@
 (* Correspondence cases for the ACU command path (agent Acmd; C14, c03_acu, c10_acu).
    A case is a history on a fresh `System`: a list of operations, each carrying the inputs and
    what the real classes were observed to do; [ok] folds the model and compares everything. *)
-From DS Require Import Base.Prelude Base.Bits Gen.AcmdTables Model.AcmdFrame Model.AcmdAxis
-  Model.AcmdEncoder.
+From DS Require Import Base.Prelude Base.Bits Gen.AcmdTables Model.AcmdFrame.
+From DS Require Import Model.AcmdAxis Model.AcmdEncoder.
 
 Inductive aop :=
 (* feed bytes one at a time to System.parse.
